@@ -912,3 +912,83 @@ func runC17_12(c *core.Ctx) {
 		c.Check(named, f.Name, "resolved address returned", f.Decl.Pos(), "the caller reports the address that was converted", spec.fn+" does not return the address it resolved: the reported local/remote address differs from the one the socket uses")
 	}
 }
+
+// accessorTable: one-line accessors the properties quote; each hands back exactly the named path from its receiver.
+var accessorTable = []struct {
+	prop, id, rel, fn string
+	path             []string // field names, a trailing "()" marks a niladic method call
+	why              string
+}{
+	{"C02", "C02.17", "", "conn.OutboundBuffered", []string{"outboundBuffer", "Buffered()"}, "OutboundBuffered is the byte count of the outbound queue (accepted minus handed to the kernel)"},
+	{"C17", "C17.13", "", "conn.LocalAddr", []string{"localAddr"}, "LocalAddr reports the address stored at construction"},
+	{"C17", "C17.13", "", "conn.RemoteAddr", []string{"remoteAddr"}, "RemoteAddr reports the peer address stored at construction (or set per datagram)"},
+	{"C14", "C14.10", "", "eventloop.countConn", []string{"connections", "loadCount()"}, "a loop's connection count is its registry's counter (Engine.CountConnections and the least-connections policy read it)"},
+	{"C07", "C07.21", "", "conn.Fd", []string{"fd"}, "Fd reports the connection's own descriptor"},
+}
+
+func init() {
+	seen := map[string]bool{}
+	for _, a := range accessorTable {
+		if seen[a.id] {
+			continue
+		}
+		seen[a.id] = true
+		id, prop := a.id, a.prop
+		register(&core.Rule{ID: id, Prop: prop, MinSites: 1,
+			Desc: "accessors answer from their own field: each one-line accessor the property quotes (conn.OutboundBuffered, LocalAddr/RemoteAddr, eventloop.countConn, conn.Fd – the ones listed for this property) returns exactly the named field path of its receiver on every return",
+			Run:  func(c *core.Ctx) { runAccessors(c, id) }})
+	}
+}
+
+func runAccessors(c *core.Ctx, id string) {
+	for _, a := range accessorTable {
+		if a.id != id {
+			continue
+		}
+		f := getFn(c, a.rel, a.fn)
+		if f == nil {
+			continue
+		}
+		recv := f.recvVar()
+		k := 0
+		for _, b := range f.Graph().Exits() {
+			r := b.Return
+			if r == nil || len(r.Results) != 1 {
+				continue
+			}
+			k++
+			e := seeThrough(f, r.Results[0])
+			good := recv != nil
+			for i := len(a.path) - 1; i >= 0 && good; i-- {
+				name := a.path[i]
+				if strings.HasSuffix(name, "()") {
+					call, ok := e.(*ast.CallExpr)
+					if !ok || len(call.Args) != 0 {
+						good = false
+						break
+					}
+					sel, ok := ast.Unparen(call.Fun).(*ast.SelectorExpr)
+					if !ok || f.Info.Uses[sel.Sel] == nil || nameOf(f.Info.Uses[sel.Sel]) != strings.TrimSuffix(name, "()") {
+						good = false
+						break
+					}
+					e = seeThrough(f, sel.X)
+					continue
+				}
+				sel, ok := e.(*ast.SelectorExpr)
+				if !ok || f.Info.Uses[sel.Sel] == nil || nameOf(f.Info.Uses[sel.Sel]) != name {
+					good = false
+					break
+				}
+				e = seeThrough(f, sel.X)
+			}
+			if good {
+				good = flow.ObjOf(f.Info, e) == types.Object(recv)
+			}
+			c.Check(good, f.Name, "return #"+itoa(k), r.Pos(), a.why, nameOf(f.Obj)+" does not return "+strings.Join(a.path, ".")+" of its receiver: "+a.why+" – callers and handlers are told another object's value")
+		}
+		if k == 0 {
+			c.Violate(f.Name, "returns", f.Decl.Pos(), "no single-result return found")
+		}
+	}
+}
